@@ -20,6 +20,9 @@ let string_of_list l =
   Buffer.contents b
 
 let () =
+  (* events are lists of boxed numbers: a long transcript is a large live heap, and the default collector
+     settings then spend most of the time re-scanning it *)
+  Gc.set { (Gc.get ()) with Gc.space_overhead = 400; Gc.minor_heap_size = 1048576 };
   let ic = if Array.length Sys.argv > 1 then open_in Sys.argv.(1) else stdin in
   let out = Buffer.create 65536 in
   (try
